@@ -2042,7 +2042,8 @@ impl<'data, P: Platform> Prelude<'data, P> {
                 | SymbolPlacement::SectionEnd(_)
                 | SymbolPlacement::SectionGroupEnd(_)
                 | SymbolPlacement::DefsymSymbol(_, _)
-                | SymbolPlacement::LoadBaseAddress => {
+                | SymbolPlacement::LoadBaseAddress
+                | SymbolPlacement::TlsSegmentEnd => {
                     outputs.add_non_versioned(PendingSymbol::new(symbol_id, definition.name));
                     ValueFlags::NON_INTERPOSABLE
                 }
@@ -2075,6 +2076,7 @@ impl<P: Platform> InternalSymDefInfo<'_, P> {
             // outside of the selected section. It's tricky for us to find the closest section
             // at this point in the code, so we pick an arbitrary section.
             SymbolPlacement::LoadBaseAddress => Some(output_section_id::TEXT),
+            SymbolPlacement::TlsSegmentEnd => Some(output_section_id::TBSS),
         }
     }
 }
